@@ -2,7 +2,7 @@
 META = {
     "level": "fault_enumeration",
     "technique": "differential runtime monitoring of the real upload Helper on the in-process grid (twin grid = direct upload oracle) with enumeration of every client-disconnect point of the ciphertext transfer and every file-system crash point (vf.fsx) of the helper's ciphertext spool, each followed by a resumed upload from a new client",
-    "text": "The real allmydata.immutable.offloaded.Helper (constructed as client.init_helper does) is reached by the real Uploader/AssistedUploader of a client through a schedulable two-way wire (upload_chk, upload, and the helper's get_size/get_all_encoding_parameters/read_encrypted/close calls back to the client are wire messages).  For generated (size, k, happy, N, segment size, server count, fetch chunk size, convergence secret): (a) the read-cap and verify-cap of the helper upload equal those of a direct upload of the same data on a twin grid and every share's data region is byte-identical by share number, and the file reads back; (b) for EVERY index i of the helper's read_encrypted calls the client connection is cut at call i (before it is served / after it was served but before the answer arrives), a new client resumes, and cap and shares equal the uninterrupted ones; (c) for EVERY file-system operation of the helper (creat/write(2)/rename/unlink of CHK_incoming, CHK_encoding, as decided by CPython's real buffering) the helper process is killed there, its storage connections drop, a new Helper starts on the same directory, a new client resumes: same cap, same shares; (d) a second upload of a present file makes no allocate_buckets / write / close call to any storage server, fetches no ciphertext and reports 0 pushed shares with the same cap; (e) a second client joining an active upload, the first one vanishing (takeover); (f) history upload -> share files lost so that r distinct share numbers remain (r in {0,k-1,k,k+1,N-1,N}) -> upload again through the helper, against the same history with a direct second upload on the twin grid: same cap and the same set of complete share numbers afterwards ('already present' is only accepted when the direct upload pushes nothing either).",
+    "text": "The real allmydata.immutable.offloaded.Helper (constructed as client.init_helper does) is reached by the real Uploader/AssistedUploader of a client through a schedulable two-way wire (upload_chk, upload, and the helper's get_size/get_all_encoding_parameters/read_encrypted/close calls back to the client are wire messages).  For generated (size, k, happy, N, segment size, server count, fetch chunk size, convergence secret): (a) the read-cap and verify-cap of the helper upload equal those of a direct upload of the same data on a twin grid and every share's data region is byte-identical by share number, and the file reads back; (b) for EVERY index i of the helper's read_encrypted calls the client connection is cut at call i (before it is served / after it was served but before the answer arrives), a new client resumes, and cap and shares equal the uninterrupted ones; (c) for EVERY file-system operation of the helper (creat/write(2)/rename/unlink of CHK_incoming, CHK_encoding, as decided by CPython's real buffering) the helper process is killed there, its storage connections drop, a new Helper starts on the same directory, a new client resumes: same cap, same shares; (d) a second upload of a present file makes no allocate_buckets / write / close call to any storage server, fetches no ciphertext and reports 0 pushed shares with the same cap; (e) a second client joining an active upload, the first one vanishing (takeover); (f) history upload -> share files lost so that r distinct share numbers remain (r in {0,k-1,k,k+1,N-1,N}) -> upload again through the helper, against the same history with a direct second upload on the twin grid: same cap and the same set of complete share numbers afterwards ('already present' is only accepted when the direct upload pushes nothing either); (g) 2..3 clients uploading the same file with the same secret through one helper, started in the same turn and with the second one started at every scheduling point of the first one's already-in-grid check: every upload that reports success returns the direct upload's caps, the grid holds only genuine shares and the file reads back.",
     "note": "Trusts the in-process wire (stands in for foolscap), the virtual reactor and vf.fsx (validated against strace by C29).  The helper's fetch chunk size (a class constant, 50 KiB) is lowered in most cases so that small files have many chunk boundaries; the real value is used in others.",
 }
 LEVEL = "fault_enumeration"
@@ -663,6 +663,105 @@ def family_reupload_after_loss(ck, p, data, conv, ref, desc, rng):
                 w.close()
 
 
+def family_concurrent(ck, p, data, conv, ref, desc, rng):
+    """2..3 clients upload the SAME file (same convergence secret) through one helper: all started in the same
+    turn, and the second one started at every scheduling point of the first one's already-in-grid check (until
+    the first client has been told to send its ciphertext).  Every upload that reports success returns the cap
+    of the direct upload; afterwards the grid holds the genuine shares and the file reads back with that cap."""
+    from vf import imm
+    from allmydata.immutable.upload import Data
+
+    def run_one(m, stagger, label):
+        w = World(p)
+        d2 = dict(desc, concurrent_clients=m, second_started_after_steps=stagger)
+        try:
+            with ck.watchdog(180, "concurrent %r" % (d2,)):
+                clients = [w.client() for _ in range(m)]
+                boxes = [[] for _ in range(m)]
+                clients[0][0].upload(Data(data, convergence=conv)).addBoth(boxes[0].append)
+                steps = 0
+                if stagger is not None:
+                    while steps < stagger and not boxes[0]:
+                        if w.g.sched.step() is None:
+                            break
+                        steps += 1
+                for i in range(1, m):
+                    clients[i][0].upload(Data(data, convergence=conv)).addBoth(boxes[i].append)
+                w.g.sched.run(until=lambda: all(boxes), max_steps=600000, horizon=7200)
+                w.g.sched.settle()
+                ck.mon("concurrent-same-file")
+                if not all(boxes):
+                    ck.violation("concurrent-helper-upload-hangs", "%s: %d of %d concurrent uploads of the same file "
+                                 "never finished" % (label, sum(1 for b in boxes if not b), m), d2)
+                    return None
+                oks = [b[0] for b in boxes if not isinstance(b[0], Failure)]
+                fails = [b[0] for b in boxes if isinstance(b[0], Failure)]
+                if fails:
+                    ck.observe("concurrent-upload-failed")
+                both_asked = sum(1 for (_c, ch) in clients if ch.peer.calls.get("read_encrypted", 0)) > 1
+                if both_asked:
+                    ck.hit("two-clients-served-ciphertext")
+                if sum(ch.calls.get("upload", 0) for (_c, ch) in clients) > 1:
+                    ck.hit("two-clients-joined-one-upload")
+                good = True
+                for j, res in enumerate(oks):
+                    if res.get_uri() != ref["cap"] or res.get_verifycapstr() != ref["vcap"]:
+                        good = False
+                        ck.violation("concurrent-helper-upload-cap-differs",
+                                     "%s: an upload that reported success returned %r (verify-cap %r); the direct upload "
+                                     "gives %r" % (label, res.get_uri(), res.get_verifycapstr(), ref["cap"]), d2)
+                if not oks:
+                    # nothing succeeded: the statement says nothing about that, but a repeated upload must work
+                    c3, _ch3 = w.client()
+                    st3, res3 = upload_via(w, c3, data, conv)
+                    good = judge_upload(ck, label + ", all failed (%s), then repeated" % _f(fails[0]), st3, res3, ref, w,
+                                        d2, resumed=True)
+                else:
+                    sh, clash = shares_of(w.g, ref["si"])
+                    wrong = sorted(k for k in sh if sh[k] != ref["shares"].get(k))
+                    if clash or wrong:
+                        good = False
+                        ck.violation("concurrent-helper-upload-leaves-bogus-shares",
+                                     "%s: share numbers %r on the grid do not hold the genuine share data" % (
+                                         label, sorted(set(wrong) | set(clash))), d2)
+                    rc = w.g.make_client(k=1, happy=1, n=2)
+                    st2, _r2, cons = imm.read_all(w.g, rc.create_node_from_uri(ref["cap"]))
+                    ck.mon("concurrent-upload-reads-back")
+                    if st2 != "ok" or cons.value() != data:
+                        good = False
+                        ck.violation("file-unreadable-after-concurrent-helper-uploads",
+                                     "%s: download with the (correct) read-cap %s afterwards" % (label, st2), d2)
+                if any((r.get_ciphertext_fetched() or 0) > len(data) for r in oks):
+                    ck.observe("ciphertext-fetched-more-than-once")
+                ck.case("concurrent", key=(p["size"], p["k"], p["n"], p["chunk"], p["nservers"], m, stagger), sample=d2)
+                return steps
+        finally:
+            w.close()
+
+    # how many scheduling points has the first client's check phase?  (counting run: until it is asked to upload)
+    w = World(p)
+    try:
+        c, ch = w.client()
+        box = []
+        c.upload(Data(data, convergence=conv)).addBoth(box.append)
+        J = 0
+        while not box and ch.calls.get("upload", 0) == 0 and J < 400:
+            if w.g.sched.step() is None:
+                break
+            J += 1
+    finally:
+        w.close()
+    ck.extra["check_phase_steps_max"] = max(ck.extra.get("check_phase_steps_max", 0), J)
+    for m in (2, 3):
+        run_one(m, None, "%d uploads started in the same turn" % m)
+    points = list(range(0, J + 3))
+    if ck.tier == "quick" and len(points) > 16:
+        points = sorted(set(points[:8] + rng.sample(points[8:], 8)))
+    for j in points:
+        run_one(2, j, "second upload started %d scheduling steps after the first" % j)
+        ck.hit("staggered-start-in-check-phase")
+
+
 def family_takeover(ck, p, data, conv, ref, desc, n_chunks, rng):
     """A second client joins the active upload; the first one vanishes after chunk j; the helper goes on with
     the second reader (skip-ahead hashing on its side)."""
@@ -744,6 +843,8 @@ def run(ck):
             family_client_disconnect(ck, p, data, conv, ref, desc, n_chunks)
             family_helper_kill(ck, p, data, conv, ref, desc)
             family_takeover(ck, p, data, conv, ref, desc, n_chunks, crng)
+            if ck.tier != "quick" or full < 2:
+                family_concurrent(ck, p, data, conv, ref, desc, crng)
             full += 1
 
     if ck.tier == "quick":
@@ -760,11 +861,12 @@ def run(ck):
     ck.exhaustive = True     # within each enumerated case: every read_encrypted index, every helper fs operation
     ck.require_monitor("cap-equals-direct", "shares-equal-direct", "already-present",
                        "resume-after-client-disconnect", "resume-after-helper-kill", "helper-upload-reads-back",
-                       "reupload-after-share-loss")
+                       "reupload-after-share-loss", "concurrent-same-file", "concurrent-upload-reads-back")
     ck.require_reach("helper-upload-completed", "multi-chunk-fetch", "second-upload-of-present-file",
                      "client-disconnected-mid-upload", "partial-ciphertext-kept-by-helper",
                      "partial-ciphertext-survived-helper-kill", "helper-killed:write", "helper-killed:rename",
-                     "reupload-with-readable-but-incomplete-share-set", "direct-reupload-restored-shares")
+                     "reupload-with-readable-but-incomplete-share-set", "direct-reupload-restored-shares",
+                     "staggered-start-in-check-phase", "two-clients-joined-one-upload")
 
 
 # MUST_CATCH (selftest/breaks_c44.py), all caught by the quick tier:
@@ -773,6 +875,8 @@ def run(ck):
 #   c44-resume-offset-off-by-one / c44-resume-refetches-last-byte  CHKCiphertextFetcher resume offset +-1
 #                                                    -> resumed-helper-upload-failed
 #   c44-already-present-check-skipped                -> present-file-uploaded-again, present-file-not-reported-as-present
+#   seeded/C44-5 (no second look at _active_uploads after the asynchronous check: two fetchers append to one spool file)
+#                                                    -> concurrent-helper-upload-cap-differs / -leaves-bogus-shares / file-unreadable-...
 #   seeded/C44-2 (already-present declared at k instead of N distinct shares) -> helper-does-not-restore-missing-shares
 #   c44-client-skip-ahead-off-by-one                 RemoteEncryptedUploadable skip-ahead -> resumed-helper-upload-failed
 # Not a break of C44 (stays green, rightly): ignoring a complete CHK_encoding spool file (re-fetch, same result).
